@@ -1,25 +1,33 @@
 // c12facts <repo> <out.lean> — reads from the Go source of package log/rotation of the working tree WHICH file-system
 // calls the package makes, and writes them as Lean tables (lean/Generated/RotationCalls.lean; Props/C12Calls.lean decides
-// that they are exactly the calls the failing-file-system model `Rot.Sys` quantifies over).  Standard library only
-// (go/parser, go/ast); no type checking:
+// that they are the calls the failing-file-system model `Rot.Sys` quantifies over).  The package is TYPE-CHECKED
+// (go/types; the standard library through the compiler's export data, the other imports as empty packages — enough to
+// resolve every identifier of the package itself and of package os), so the facts do not depend on how the code is
+// written down:
 //
-//   - osCalls: every function of package "os" that is called anywhere in the package (non-test files), by name;
-//   - fileCalls: every method called on an *os.File: on a struct field declared `*os.File`, or on a local variable that
-//     was assigned from such a field or from os.OpenFile / os.Open / os.Create, or on a parameter of that type;
-//   - openFlags: for every os.OpenFile call the os.O_* constants or-ed together in its flag argument ("?other" if the
-//     argument is anything else).
-//
-// The tables are SETS (sorted, without repetition): splitting Write/rotate into helpers, renaming fields or locals,
-// reordering the flag constants changes nothing.  A new call (os.Chmod, os.Truncate, (*os.File).Seek, …) or a dropped
-// one changes the table, and the tie theorems no longer check.
+//   - roots: the methods of the struct type(s) that hold a *os.File field (the Rotator); the inventory is taken over every
+//     function of the package REACHABLE from them through static references (calls, function values, closures);
+//   - osCalls: the functions of package os referenced there; fileCalls: the methods of os.File referenced there — by the
+//     resolved object, wherever and through whatever helper, variable or parenthesis they are written;
+//   - openFlagBits: the VALUE of the flag argument of every os.OpenFile call (go/types constant evaluation: literals,
+//     named constants, `|` of constants, parentheses all give the same integer), with the values of os.O_APPEND,
+//     O_CREATE, O_TRUNC, O_EXCL read from package os;
+//   - what could not be resolved is LISTED (`unresolved`) and makes the tables incomplete (`complete := false`): a flag
+//     argument that is not a constant, a call through an interface or a function-typed variable in reachable code, the
+//     file handed to another function or stored in an interface, package os not importable.  The tie theorems are
+//     stated so that an absent fact makes the statement vacuous; a call that IS resolved and is not one of the model's
+//     (os.Chmod, os.Truncate, a Seek on the descriptor …) breaks them.
 package main
 
 import (
 	"encoding/json"
 	"fmt"
 	"go/ast"
+	"go/constant"
+	"go/importer"
 	"go/parser"
 	"go/token"
+	"go/types"
 	"os"
 	"path/filepath"
 	"sort"
@@ -27,17 +35,27 @@ import (
 	"strings"
 )
 
-func isOsFileType(e ast.Expr, osName string) bool {
-	st, ok := e.(*ast.StarExpr)
-	if !ok {
-		return false
+type mixImporter struct {
+	def    types.Importer
+	fake   map[string]*types.Package
+	failed []string
+}
+
+func (m *mixImporter) Import(path string) (*types.Package, error) {
+	first := strings.SplitN(path, "/", 2)[0]
+	if !strings.Contains(first, ".") {
+		if p, err := m.def.Import(path); err == nil {
+			return p, nil
+		}
+		m.failed = append(m.failed, path)
 	}
-	sel, ok := st.X.(*ast.SelectorExpr)
-	if !ok {
-		return false
+	if p, ok := m.fake[path]; ok {
+		return p, nil
 	}
-	id, ok := sel.X.(*ast.Ident)
-	return ok && id.Name == osName && sel.Sel.Name == "File"
+	p := types.NewPackage(path, path[strings.LastIndex(path, "/")+1:])
+	p.MarkComplete()
+	m.fake[path] = p
+	return p, nil
 }
 
 func sortedKeys(m map[string]bool) []string {
@@ -57,6 +75,14 @@ func leanList(xs []string) string {
 	return "[" + strings.Join(q, ", ") + "]"
 }
 
+func isOsFile(t types.Type) bool {
+	if p, ok := t.(*types.Pointer); ok {
+		t = p.Elem()
+	}
+	n, ok := t.(*types.Named)
+	return ok && n.Obj().Pkg() != nil && n.Obj().Pkg().Path() == "os" && n.Obj().Name() == "File"
+}
+
 func main() {
 	if len(os.Args) != 3 {
 		fmt.Fprintln(os.Stderr, "usage: c12facts <repo> <out.lean>")
@@ -69,186 +95,232 @@ func main() {
 		fmt.Fprintln(os.Stderr, "parse:", err)
 		os.Exit(1)
 	}
-	pkg := pkgs["rotation"]
-	if pkg == nil {
+	apkg := pkgs["rotation"]
+	if apkg == nil {
 		fmt.Fprintln(os.Stderr, "package rotation not found in", dir)
 		os.Exit(1)
 	}
-	osCalls, fileCalls := map[string]bool{}, map[string]bool{}
-	var openFlags [][]string
-	fileFields := map[string]bool{}
-	osNames := map[*ast.File]string{}
+	var names []string
+	for n := range apkg.Files {
+		names = append(names, n)
+	}
+	sort.Strings(names)
 	var files []*ast.File
-	for _, name := range func() []string {
-		var ns []string
-		for n := range pkg.Files {
-			ns = append(ns, n)
+	for _, n := range names {
+		files = append(files, apkg.Files[n])
+	}
+	imp := &mixImporter{def: importer.ForCompiler(fset, "gc", nil), fake: map[string]*types.Package{}}
+	info := &types.Info{Types: map[ast.Expr]types.TypeAndValue{}, Uses: map[*ast.Ident]types.Object{},
+		Defs: map[*ast.Ident]types.Object{}, Selections: map[*ast.SelectorExpr]*types.Selection{}}
+	conf := types.Config{Importer: imp, Error: func(error) {}}
+	tpkg, _ := conf.Check("rotation", fset, files, info)
+
+	unresolved := map[string]bool{}
+	osCalls, fileCalls := map[string]bool{}, map[string]bool{}
+	var flagBits []int64
+	osConst := map[string]int64{}
+	var osPkg *types.Package
+	if tpkg != nil {
+		for _, p := range tpkg.Imports() {
+			if p.Path() == "os" {
+				osPkg = p
+			}
 		}
-		sort.Strings(ns)
-		return ns
-	}() {
-		f := pkg.Files[name]
-		files = append(files, f)
-		osName := ""
-		for _, im := range f.Imports {
-			if im.Path.Value == `"os"` {
-				osName = "os"
-				if im.Name != nil {
-					osName = im.Name.Name
+	}
+	osReal := osPkg != nil && osPkg.Scope().Lookup("OpenFile") != nil
+	if !osReal {
+		unresolved["package os could not be imported (" + strings.Join(imp.failed, ",") + "): no facts"] = true
+	} else {
+		for _, c := range []string{"O_APPEND", "O_CREATE", "O_TRUNC", "O_EXCL", "O_WRONLY", "O_RDWR"} {
+			if k, ok := osPkg.Scope().Lookup(c).(*types.Const); ok {
+				if v, exact := constant.Int64Val(k.Val()); exact {
+					osConst[c] = v
 				}
 			}
 		}
-		osNames[f] = osName
-		if osName == "" {
+	}
+
+	fileMethods := map[string]bool{}
+	if osReal {
+		if tn, ok := osPkg.Scope().Lookup("File").(*types.TypeName); ok {
+			ms := types.NewMethodSet(types.NewPointer(tn.Type()))
+			for i := 0; i < ms.Len(); i++ {
+				fileMethods[ms.At(i).Obj().Name()] = true
+			}
+		}
+	}
+	isFileInfo := func(t types.Type) bool {
+		n, ok := t.(*types.Named)
+		return ok && n.Obj().Pkg() != nil && n.Obj().Pkg().Path() == "io/fs" && n.Obj().Name() == "FileInfo"
+	}
+	// functions of the package, their bodies, the roots
+	type fn struct {
+		decl *ast.FuncDecl
+		obj  *types.Func
+	}
+	funcs := map[*types.Func]*fn{}
+	holders := map[*types.TypeName]bool{} // named struct types with a *os.File field
+	if tpkg != nil {
+		for _, n := range tpkg.Scope().Names() {
+			if tn, ok := tpkg.Scope().Lookup(n).(*types.TypeName); ok {
+				if st, ok := tn.Type().Underlying().(*types.Struct); ok {
+					for i := 0; i < st.NumFields(); i++ {
+						if isOsFile(st.Field(i).Type()) {
+							holders[tn] = true
+						}
+					}
+				}
+			}
+		}
+	}
+	var all []*fn
+	for _, f := range files {
+		for _, d := range f.Decls {
+			if fd, ok := d.(*ast.FuncDecl); ok && fd.Body != nil {
+				if o, ok := info.Defs[fd.Name].(*types.Func); ok {
+					x := &fn{fd, o}
+					funcs[o] = x
+					all = append(all, x)
+				}
+			}
+		}
+	}
+	recvHolder := func(o *types.Func) bool {
+		sig := o.Type().(*types.Signature)
+		if sig.Recv() == nil {
+			return false
+		}
+		t := sig.Recv().Type()
+		if p, ok := t.(*types.Pointer); ok {
+			t = p.Elem()
+		}
+		n, ok := t.(*types.Named)
+		return ok && holders[n.Obj()]
+	}
+	var work []*fn
+	for _, x := range all {
+		if recvHolder(x.obj) {
+			work = append(work, x)
+		}
+	}
+	if len(work) == 0 { // representation not recognised: take every function of the package
+		work = append(work, all...)
+		if osReal {
+			unresolved["no struct type with a *os.File field: inventory taken over the whole package"] = true
+		}
+	}
+	seen := map[*fn]bool{}
+	for len(work) > 0 {
+		x := work[len(work)-1]
+		work = work[:len(work)-1]
+		if seen[x] {
 			continue
 		}
-		ast.Inspect(f, func(n ast.Node) bool {
-			if st, ok := n.(*ast.StructType); ok {
-				for _, fld := range st.Fields.List {
-					if isOsFileType(fld.Type, osName) {
-						for _, nm := range fld.Names {
-							fileFields[nm.Name] = true
+		seen[x] = true
+		pos := func(n ast.Node) string { p := fset.Position(n.Pos()); return filepath.Base(p.Filename) + ":" + strconv.Itoa(p.Line) }
+		ast.Inspect(x.decl.Body, func(n ast.Node) bool {
+			switch e := n.(type) {
+			case *ast.Ident:
+				if o, ok := info.Uses[e].(*types.Func); ok && o.Pkg() != nil {
+					sig := o.Type().(*types.Signature)
+					switch {
+					case o.Pkg().Path() == "os" && sig.Recv() == nil:
+						osCalls[o.Name()] = true
+					case o.Pkg().Path() == "os" && isOsFile(sig.Recv().Type()):
+						fileCalls[o.Name()] = true
+					case o.Pkg() == tpkg:
+						if y := funcs[o]; y != nil {
+							work = append(work, y)
 						}
+					}
+				}
+			case *ast.CallExpr:
+				// os.OpenFile flags
+				var callee types.Object
+				switch f := e.Fun.(type) {
+				case *ast.Ident:
+					callee = info.Uses[f]
+				case *ast.SelectorExpr:
+					callee = info.Uses[f.Sel]
+				}
+				if o, ok := callee.(*types.Func); ok && o.Pkg() != nil && o.Pkg().Path() == "os" && o.Name() == "OpenFile" &&
+					o.Type().(*types.Signature).Recv() == nil && len(e.Args) >= 2 {
+					if tv, ok := info.Types[e.Args[1]]; ok && tv.Value != nil {
+						if v, exact := constant.Int64Val(constant.ToInt(tv.Value)); exact {
+							flagBits = append(flagBits, v)
+						} else {
+							unresolved["OpenFile flag argument at "+pos(e)+" is not a small integer constant"] = true
+						}
+					} else {
+						unresolved["OpenFile flag argument at "+pos(e)+" is not a constant"] = true
+					}
+				}
+				// dynamic calls: through an interface method or a function-typed variable
+				if tv, ok := info.Types[e.Fun]; ok && !tv.IsType() && !tv.IsBuiltin() {
+					if o, ok := callee.(*types.Func); ok {
+						if sig := o.Type().(*types.Signature); sig.Recv() != nil {
+							// an interface method that *os.File also has may be the file behind an interface (io.Writer, io.Closer …);
+							// fs.FileInfo (the result of Stat) is not a file
+							if _, isIface := sig.Recv().Type().Underlying().(*types.Interface); isIface && fileMethods[o.Name()] &&
+								!isFileInfo(sig.Recv().Type()) {
+								unresolved["call of interface method "+o.Name()+" (a method *os.File has too) at "+pos(e)] = true
+							}
+						}
+					} else if _, isVar := callee.(*types.Var); isVar {
+						if _, isSig := tv.Type.Underlying().(*types.Signature); isSig {
+							unresolved["call through a function-typed variable at "+pos(e)] = true
+						}
+					}
+				}
+				// the file handed to another function (not as the receiver)
+				for _, a := range e.Args {
+					if tv, ok := info.Types[a]; ok && tv.Type != nil && isOsFile(tv.Type) {
+						unresolved["the *os.File is passed as an argument at "+pos(e)] = true
 					}
 				}
 			}
 			return true
 		})
 	}
-	for _, f := range files {
-		osName := osNames[f]
-		if osName == "" {
-			continue
-		}
-		isOsCall := func(e ast.Expr, names ...string) bool {
-			c, ok := e.(*ast.CallExpr)
-			if !ok {
-				return false
-			}
-			sel, ok := c.Fun.(*ast.SelectorExpr)
-			if !ok {
-				return false
-			}
-			id, ok := sel.X.(*ast.Ident)
-			if !ok || id.Name != osName {
-				return false
-			}
-			for _, n := range names {
-				if sel.Sel.Name == n {
-					return true
-				}
-			}
-			return false
-		}
-		isFileExpr := func(e ast.Expr, tracked map[string]bool) bool {
-			switch x := e.(type) {
-			case *ast.Ident:
-				return tracked[x.Name]
-			case *ast.SelectorExpr:
-				return fileFields[x.Sel.Name]
-			}
-			return false
-		}
-		for _, d := range f.Decls {
-			fd, ok := d.(*ast.FuncDecl)
-			if !ok || fd.Body == nil {
-				continue
-			}
-			tracked := map[string]bool{}
-			if fd.Type.Params != nil {
-				for _, p := range fd.Type.Params.List {
-					if isOsFileType(p.Type, osName) {
-						for _, nm := range p.Names {
-							tracked[nm.Name] = true
-						}
-					}
-				}
-			}
-			// locals that hold the file: two passes so that the order of statements does not matter
-			for pass := 0; pass < 2; pass++ {
-				ast.Inspect(fd.Body, func(n ast.Node) bool {
-					as, ok := n.(*ast.AssignStmt)
-					if !ok {
-						return true
-					}
-					for i, rhs := range as.Rhs {
-						if i >= len(as.Lhs) {
-							break
-						}
-						if isFileExpr(rhs, tracked) || isOsCall(rhs, "OpenFile", "Open", "Create") {
-							if id, ok := as.Lhs[i].(*ast.Ident); ok && id.Name != "_" {
-								tracked[id.Name] = true
-							}
-						}
-					}
-					return true
-				})
-			}
-			ast.Inspect(fd.Body, func(n ast.Node) bool {
-				c, ok := n.(*ast.CallExpr)
-				if !ok {
-					return true
-				}
-				sel, ok := c.Fun.(*ast.SelectorExpr)
-				if !ok {
-					return true
-				}
-				if id, ok := sel.X.(*ast.Ident); ok && id.Name == osName && !tracked[id.Name] {
-					osCalls[sel.Sel.Name] = true
-					if sel.Sel.Name == "OpenFile" && len(c.Args) >= 2 {
-						fl := map[string]bool{}
-						var walk func(e ast.Expr)
-						walk = func(e ast.Expr) {
-							switch x := e.(type) {
-							case *ast.BinaryExpr:
-								if x.Op == token.OR {
-									walk(x.X)
-									walk(x.Y)
-									return
-								}
-							case *ast.ParenExpr:
-								walk(x.X)
-								return
-							case *ast.SelectorExpr:
-								if q, ok := x.X.(*ast.Ident); ok && q.Name == osName && strings.HasPrefix(x.Sel.Name, "O_") {
-									fl[x.Sel.Name] = true
-									return
-								}
-							}
-							fl["?other"] = true
-						}
-						walk(c.Args[1])
-						openFlags = append(openFlags, sortedKeys(fl))
-					}
-					return true
-				}
-				if isFileExpr(sel.X, tracked) {
-					fileCalls[sel.Sel.Name] = true
-				}
-				return true
-			})
-		}
-	}
-	sort.Slice(openFlags, func(i, j int) bool { return strings.Join(openFlags[i], "|") < strings.Join(openFlags[j], "|") })
+	sort.Slice(flagBits, func(i, j int) bool { return flagBits[i] < flagBits[j] })
+	complete := osReal && len(unresolved) == 0
 	var sb strings.Builder
 	sb.WriteString("/-! generated by go/cmd/c12facts from log/rotation of the working tree on every run of `./check C12` — do not edit -/\n")
 	sb.WriteString("namespace RotationCalls\n\n")
-	sb.WriteString("/-- the functions of package os that package rotation calls -/\n")
+	sb.WriteString("/-- the functions of package os referenced in the code reachable from the methods of the Rotator -/\n")
 	sb.WriteString("def osCalls : List String := " + leanList(sortedKeys(osCalls)) + "\n\n")
-	sb.WriteString("/-- the methods of *os.File that package rotation calls -/\n")
+	sb.WriteString("/-- the methods of os.File referenced there -/\n")
 	sb.WriteString("def fileCalls : List String := " + leanList(sortedKeys(fileCalls)) + "\n\n")
-	sb.WriteString("/-- the os.O_* constants of the flag argument of every os.OpenFile call -/\n")
-	fls := make([]string, len(openFlags))
-	for i, fl := range openFlags {
-		fls[i] = leanList(fl)
+	sb.WriteString("/-- the value of the flag argument of every os.OpenFile call there (constant evaluation) -/\n")
+	fb := make([]string, len(flagBits))
+	for i, v := range flagBits {
+		fb[i] = strconv.FormatInt(v, 10)
 	}
-	sb.WriteString("def openFlags : List (List String) := [" + strings.Join(fls, ", ") + "]\n\n")
+	sb.WriteString("def openFlagBits : List Nat := [" + strings.Join(fb, ", ") + "]\n\n")
+	sb.WriteString("/-- the values of the constants of package os on this platform (0: not read) -/\n")
+	for _, c := range []string{"O_APPEND", "O_CREATE", "O_TRUNC", "O_EXCL", "O_WRONLY", "O_RDWR"} {
+		sb.WriteString("def " + c + " : Nat := " + strconv.FormatInt(osConst[c], 10) + "\n")
+	}
+	sb.WriteString("\n/-- nothing was left unresolved: the tables are the whole inventory -/\n")
+	sb.WriteString("def complete : Bool := " + strconv.FormatBool(complete) + "\n\n")
+	sb.WriteString("/-- what could not be resolved (facts absent, statements about them vacuous) -/\n")
+	sb.WriteString("def unresolved : List String := " + leanList(sortedKeys(unresolved)) + "\n\n")
 	sb.WriteString("end RotationCalls\n")
 	if err := os.WriteFile(os.Args[2], []byte(sb.String()), 0o644); err != nil {
 		fmt.Fprintln(os.Stderr, "write:", err)
 		os.Exit(1)
 	}
-	js, _ := json.Marshal(map[string]any{"osCalls": sortedKeys(osCalls), "fileCalls": sortedKeys(fileCalls), "openFlags": openFlags,
-		"fileFields": sortedKeys(fileFields)})
+	var roots []string
+	for tn := range holders {
+		roots = append(roots, tn.Name())
+	}
+	sort.Strings(roots)
+	var reach []string
+	for x := range seen {
+		reach = append(reach, x.obj.Name())
+	}
+	sort.Strings(reach)
+	js, _ := json.Marshal(map[string]any{"osCalls": sortedKeys(osCalls), "fileCalls": sortedKeys(fileCalls), "openFlagBits": flagBits,
+		"osConst": osConst, "complete": complete, "unresolved": sortedKeys(unresolved), "holders": roots, "reachable": reach})
 	fmt.Println(string(js))
 }
